@@ -39,10 +39,41 @@ def run(prog, rep, tier):
     r10_2_3_4(prog, rep, fields)
     r10_5(prog, rep)
     shared.dtype_narrowing(prog, rep, "R10.6", fns={"formulae.terms.terms.GroupSpecificTerm.eval_new_data", "formulae.terms.variable.Variable.eval_new_data_categoric", "formulae.terms.call.Call.eval_new_data_categoric", "formulae.matrices.GroupEffectsMatrix.evaluate_new_data"})
+    r10_7(prog, rep)
     rep.floor("R10.1", 6)
     rep.floor("R10.2", 8)
-    rep.floor("R10.3", 16)
+    rep.floor("R10.3", 10)
     rep.floor("R10.5", 10)
+
+
+def r10_7(prog, rep):
+    """the policy is decided anew on every evaluation (the configuration may change between two evaluations, a frame may be
+    corrected in place): the evaluation code of variables, calls and terms keeps nothing of an evaluation (C07's R7.1
+    restricted to these classes, reported here as R10.7)"""
+    from . import C07
+    from .. import predpath
+
+    pp = predpath.get(prog)
+    sub = rep.sub()
+    C07.r7_1(prog, sub, pp)
+    scope = ("formulae.terms.variable.Variable.", "formulae.terms.call.Call.", "formulae.terms.terms.Term.", "formulae.terms.terms.GroupSpecificTerm.",
+             "formulae.terms.terms.Intercept.")
+    n = 0
+    for it in sub.items:
+        if not str(it.get("function", "")).startswith(scope):
+            continue
+        it = dict(it)
+        it["rule"] = "R10.7"
+        if it.get("verdict") == "violation":
+            it["why"] = (it.get("why") or "") + " - what was decided for one evaluation (unseen levels found, zeroed rows, new group block) is " \
+                "kept and can answer a later evaluation under another policy or for corrected data"
+        rep.items.append(it)
+        rep.counts["R10.7"] = rep.counts.get("R10.7", 0) + 1
+        n += 1
+    anchor = prog.fn("terms.variable.Variable.eval_new_data")
+    writes = [x for x in sub.items if str(x.get("function", "")).startswith(scope) and x.get("verdict") == "violation"]
+    obl(rep, anchor, anchor.node, "R10.7", not writes, "evaluating new data stores nothing on variables, calls or terms: every evaluation consults "
+        "the policy itself", f"{sub.extra.get('prediction_path_writes_examined', 0) if hasattr(sub, 'extra') else ''} writes on the prediction path examined")
 
 
 def r10_1(prog, rep):
@@ -155,6 +186,8 @@ def r10_2_3_4(prog, rep, fields):
     for q in sibs:
         f = prog.fn(q)
         s = shared.categoric_rules(prog, rep, "R10.2", "R10.3", f)
+        if s is None:
+            raise AnalysisError(f"R10.2: no summary of {q} (see the deferred analysis error)")
         handled = set(s["policy"])
         rest = declared - handled
         obl(rep, f, f.node, "R10.2", handled <= declared and rest == {"silent"},
